@@ -140,9 +140,6 @@ Definition within (c : cfg) (s : shared) : bool :=
   | _ => false
   end.
 
-Definition all_present (c : cfg) (m : files) : bool :=
-  forallb (fun f => has m (Ver f)) (seq 0 (nfiles c)).
-
 (* --------------------------------------------------------------- processes *)
 
 Inductive fail : Set :=
@@ -192,16 +189,17 @@ Inductive pc : Set :=
 | DWrite (f i : nat)     (* copyfile: write chunk i *)
 | DReplace (f : nat)     (* os.replace(cache/tmpname, dest) *)
 (* -- repaired protocol -- *)
-| FList1                 (* listdir; populate when a bundled file is missing *)
-| FAcquire               (* CacheLock.__enter__: portalocker acquire(timeout) *)
+| FList1                 (* get_hed_versions: os.listdir *)
+| FEnter                 (* CacheLock.__enter__: read the time stamp (tolerant), threshold test *)
+| FAcquire               (* CacheLock.__enter__: one attempt of portalocker's acquire(timeout) *)
 | FExists (f : nat)
 | FTOpen (f : nat)       (* open(temp name, 'wb') *)
 | FTWrite (f i : nat)
 | FReplace (f : nat)     (* os.replace(temp name, cache_name) *)
 | FRelease               (* CacheLock.__exit__: release *)
-| FCheck                 (* listdir, version lookup *)
+| FCheck                 (* get_hed_versions: second os.listdir *)
 | FRead                  (* load_schema(cache file) *)
-| FReadInstalled         (* load_schema(installed file) *)
+| FReadInstalled         (* get_hed_version_path(.., INSTALLED_CACHE_LOCATION); load_schema(installed file) *)
 | XEnter                 (* refresh: threshold test *)
 | XAcquire
 | XBody
@@ -246,6 +244,13 @@ Definition cur_content (m : files) (k : fname) : content :=
 (* where a write loop goes after chunk i *)
 Definition after_chunk (c : cfg) (i : nat) (again next : pc) : pc :=
   if Nat.ltb (S i) (nchunks c) then again else next.
+
+(* repaired lookup: the cache copy if the listing has it, else the installed file of a bundled
+   version (anything else goes to the network path, not modelled) *)
+Definition lookup_fixed (c : cfg) (m : files) (v : nat) : pc :=
+  if has m (Ver v) then FRead
+  else if Nat.ltb v (nfiles c) then FReadInstalled
+  else Done (OFail FNotCached).
 
 (* one file operation of process p *)
 Definition pstep (c : cfg) (p : nat) (s : shared) (r : proc) : shared * proc :=
@@ -314,7 +319,12 @@ Definition pstep (c : cfg) (p : nat) (s : shared) (r : proc) : shared * proc :=
       | None => (s, goto r (Done (OFail FNotCached)))
       end
   (* ---- repaired protocol ---- *)
-  | FList1 => if all_present c m then (s, goto r FCheck) else (s, goto r FAcquire)
+  (* get_hed_versions as before: the cache is seeded only when the folder is empty; the lookup
+     uses this listing, and (fix F3) a version missing from it is looked up in the installed folder *)
+  | FList1 => if dir_empty s then (s, goto r FEnter) else (s, goto r (lookup_fixed c m v))
+  (* CacheLock.__enter__ (fix F4: an unreadable stamp counts as 0): threshold test first ... *)
+  | FEnter => if within c s then (s, set_err (goto r FCheck)) else (s, goto r FAcquire)
+  (* ... then (fix F1) the lock is really acquired; LockException -> CacheException -> -1 *)
   | FAcquire =>
       match flock s with
       | None => (set_flock s (Some p), goto r (FExists 0))
@@ -338,10 +348,7 @@ Definition pstep (c : cfg) (p : nat) (s : shared) (r : proc) : shared * proc :=
       | None => (s, goto r (FExists (S f)))
       end
   | FRelease => (release p s, set_pop (goto r FCheck))
-  | FCheck =>
-      if has m (Ver v) then (s, goto r FRead)
-      else if Nat.ltb v (nfiles c) then (s, goto r FReadInstalled)
-      else (s, goto r (Done (OFail FNotCached)))
+  | FCheck => (s, goto r (lookup_fixed c m v))
   | FRead =>
       match fget m (Ver v) with
       | None => if Nat.ltb v (nfiles c) then (s, goto r FReadInstalled)
